@@ -1,11 +1,21 @@
 pub mod rng;
 pub mod util;
 pub mod varint;
+pub mod pywheel;
+pub mod alloc;
+pub mod trees;
+pub mod classic;
 
 /// One request line `<KIND> <id> <args…>` ↦ reply body (without the id).
 pub fn run_request(kind: &str, args: &[&str]) -> String {
     let r = std::panic::catch_unwind(|| match kind {
         "VARINT" => varint::run(args),
+        "ALLOC" => alloc::run(args),
+        "SER" if args[0] == "classic" => classic::run_ser(args),
+        "DE" if ["classic", "lent", "canon"].contains(&args[0]) => classic::run_de(args),
+        "LEN" => classic::run_len(args),
+        "PFX" => classic::run_pfx(args),
+        k if k.starts_with("PY") => pywheel::run(k, args),
         _ => "bad-request".to_string(),
     });
     match r {
@@ -18,6 +28,9 @@ pub fn gen_stream(name: &str, seed: u64, n: usize, tier: &str) -> Vec<String> {
     let mut rng = rng::Rng::new(seed ^ util::fnv(name));
     match name {
         "varint" => varint::generate(&mut rng, n, tier),
+        "alloc" | "alloc_limits" | "alloc_small" | "alloc_ints" => alloc::generate(name, &mut rng, n, tier),
+        "classic" => classic::generate(&mut rng, n, tier),
+        s if s.starts_with("py") => pywheel::generate(s, &mut rng, n, tier),
         _ => panic!("unknown stream {name}"),
     }
 }
@@ -26,6 +39,9 @@ pub fn run_oracle(name: &str, seed: u64, n: usize, tier: &str) -> util::OracleRe
     let mut rng = rng::Rng::new(seed ^ util::fnv(name) ^ 0x5eed);
     match name {
         "varint" => varint::oracle(&mut rng, n, tier),
+        "alloc_accounting" | "alloc_limits" | "alloc_nodes" => alloc::oracle(name, &mut rng, n, tier),
+        "classic" => classic::oracle(&mut rng, n, tier),
+        "classic_big" => classic::oracle_big(&mut rng, n, tier),
         _ => panic!("unknown oracle {name}"),
     }
 }
